@@ -903,14 +903,12 @@ impl Acc {
     fn new(mode: &str) -> Self {
         Acc { rep: BatchReport { mode: mode.into(), ..Default::default() }, hash: FNV_INIT, seen: BTreeSet::new(), seen_nontrivial: 0, max_violations: 8, trace: false }
     }
-    fn feed(&mut self, run: Option<u64>, case: Case, progress: &Option<String>) -> bool {
+    fn feed(&mut self, run: Option<u64>, case: Case, index: u64, progress: &mut simrt::Progress) -> bool {
         if self.trace {
             eprintln!("CASE {}", serde_json::to_string(&case).unwrap());
         }
-        if let Some(p) = progress {
-            // crash supervision: the supervisor learns which case was running if the process dies
-            let _ = std::fs::write(p, serde_json::to_string(&case).unwrap());
-        }
+        // crash supervision: the supervisor learns which case was running if the process dies
+        progress.mark(index);
         let o = evaluate(&case);
         self.rep.runs += 1;
         self.rep.steps += o.steps;
@@ -973,12 +971,12 @@ fn main() {
             let start: u64 = arg(&args, "--start").unwrap_or("0").parse().unwrap();
             let count: u64 = arg(&args, "--count").unwrap().parse().unwrap();
             let mode = parse_mode(arg(&args, "--mode").unwrap());
-            let progress = arg(&args, "--progress").map(|s| s.to_string());
+            let mut progress = simrt::Progress::open(arg(&args, "--progress"));
             let mut acc = Acc::new(arg(&args, "--mode").unwrap());
             acc.trace = args.iter().any(|a| a == "--trace-cases");
             for run in start..start + count {
                 let case = gen_case(seed, run, mode);
-                if !acc.feed(Some(run), case, &progress) {
+                if !acc.feed(Some(run), case, run, &mut progress) {
                     break;
                 }
             }
@@ -990,15 +988,24 @@ fn main() {
             let max_len: usize = arg(&args, "--max-len").unwrap().parse().unwrap();
             let part: u64 = arg(&args, "--part").unwrap_or("0").parse().unwrap();
             let parts: u64 = arg(&args, "--parts").unwrap_or("1").parse().unwrap();
-            let progress = arg(&args, "--progress").map(|s| s.to_string());
+            let mut progress = simrt::Progress::open(arg(&args, "--progress"));
+            // --only i: evaluate nothing, print case number i of the enumeration (crash supervision)
+            let only: Option<u64> = arg(&args, "--only").and_then(|s| s.parse().ok());
             let mut acc = Acc::new(&format!("enum-{}", arg(&args, "--mode").unwrap()));
             acc.max_violations = 8;
             let mut i = 0u64;
             let mut stop = false;
             let mut visit = |case: Case| {
                 let mine = i % parts == part;
+                let index = i;
                 i += 1;
-                if mine && !stop && !acc.feed(None, case, &progress) {
+                if let Some(o) = only {
+                    if o == index {
+                        println!("{}", serde_json::to_string(&case).unwrap());
+                    }
+                    return;
+                }
+                if mine && !stop && !acc.feed(None, case, index, &mut progress) {
                     stop = true;
                 }
             };
@@ -1007,7 +1014,9 @@ fn main() {
                 Mode::Fault => enumerate_faults(max_len, &mut visit),
                 Mode::Mismatch => enumerate_mismatches(max_len, &mut visit),
             }
-            println!("{}", serde_json::to_string(&acc.finish()).unwrap());
+            if only.is_none() {
+                println!("{}", serde_json::to_string(&acc.finish()).unwrap());
+            }
         }
         // one explicit case (replay / minimisation): exit 0 = held, 1 = violated
         "case" => {
